@@ -33,6 +33,12 @@ def shapes(rnd):
     # a command inside a word and no command at top level (and the converse)
     out.append([("seq", [("sub", [L("--user="), C("echo alice")]), L("done")])])
     out.append([("seq", [("sub", [L("--k="), ("alt", [L("a"), L("b")])]), C("echo top")])])
+    # two within-word expressions over the same set of items in a different arrangement (key=value against value=key): same
+    # automaton shape index for index, different literals per index
+    kv = lambda ks, vs: ("sub", [("alt", [L(k) for k in ks]), L("="), ("alt", [L(v) for v in vs])])
+    out.append([("alt", [("seq", [kv(["l", "r"], ["0", "1"]), L("foo")]), ("seq", [kv(["0", "1"], ["l", "r"]), L("bar")])])])
+    out.append([("seq", [("alt", [("sub", [L("-a"), ("alt", [L("x"), L("y")])]), ("sub", [("alt", [L("x"), L("y")]), L("-a")])]), L("end")])])
+    out.append([("alt", [("seq", [L("p"), ("sub", [("alt", [L("u"), L("v")]), ("alt", [L("1"), L("2")])])]), ("seq", [L("q"), ("sub", [("alt", [L("1"), L("2")]), ("alt", [L("u"), L("v")])])])])])
     # characters that the double-quote rules of the four shells treat differently (backtick, dollar, backslash, quote), in literals,
     # descriptions and inside a word: the tables are read back by each shell's own rules
     out.append([("alt", [("seq", [L("a`b", "use `x` $y \"z\" \\ here"), L("c$d")]), L("e\\f"), L("g\"h", "it's"), ("sub", [L("--q=`"), ("alt", [L("$1"), L("\\n")])])])])
